@@ -225,7 +225,13 @@ class SmiV2Lexer(AbstractLexer):
 
     def t_NUMBER(self, t):
         r'-?[0-9]+'
-        t.value = int(t.value)
+        try:
+            t.value = int(t.value)
+
+        except ValueError:
+            # more digits than the interpreter is willing to convert
+            raise error.PySmiLexerError("Number %s... is too big" % t.value[:24], lineno=t.lineno)
+
         neg = 0
         if t.value < 0:
             neg = 1
